@@ -26,6 +26,7 @@ type Val struct {
 	N int    `json:"n"`
 }
 
+var specialRe = regexp.MustCompile(`^r([0-9]{1,6})(<|&lt;)$`)
 var valRe = regexp.MustCompile(`^([a-z])([0-9]{1,6})$`)
 var numRe = regexp.MustCompile(`^1([0-9]{6})$`) // the JSON number 1000000 + n
 
@@ -36,6 +37,11 @@ func Project(s string) Val {
 	}
 	if s == "<no value>" {
 		return Val{"novalue", 0}
+	}
+	if m := specialRe.FindStringSubmatch(s); m != nil { // rows that end in a character html/template escapes: r0< / r0&lt;
+		n := 0
+		fmt.Sscanf(m[1], "%d", &n)
+		return Val{"r" + m[2], n}
 	}
 	if m := numRe.FindStringSubmatch(s); m != nil {
 		n := 0
@@ -145,16 +151,16 @@ func (t *Target) handle(w http.ResponseWriter, r *http.Request) {
 	}
 	t.last = now
 	switch {
-	case r.Header.Get("Url") != "":
+	case len(r.Header["Url"]) > 0: // (presence: html/template renders a missing variable as nothing)
 		e.At, e.Val = "hurl", Project(r.Header.Get("Url"))
-	case r.Header.Get("Body") != "":
+	case len(r.Header["Body"]) > 0:
 		e.At, e.Val = "hbody", Project(r.Header.Get("Body"))
 		if string(body) != "lit=1" { // record what arrived instead of the configured literal body
 			e.At = "hbody+body=" + string(body)
 		}
 	case r.URL.Query().Has("v"):
 		e.At, e.Val = "uri", Project(r.URL.Query().Get("v"))
-	case r.Header.Get("X-Val") != "":
+	case len(r.Header["X-Val"]) > 0:
 		e.At, e.Val = "hdr", Project(r.Header.Get("X-Val"))
 	case strings.HasPrefix(string(body), "v="):
 		e.At, e.Val = "body", Project(strings.TrimPrefix(string(body), "v="))
@@ -164,6 +170,9 @@ func (t *Target) handle(w http.ResponseWriter, r *http.Request) {
 	t.mu.Unlock()
 
 	hit := sc.At == k
+	if sc.Kind == "rowmod" { // content-driven: the row rendered into the URI has parity At
+		hit = e.At == "uri" && e.Val.T == "r" && e.Val.N%2 == sc.At
+	}
 	if hit && sc.Kind == "transport" {
 		// a status line, then the connection dies: the client has read bytes of a response, so the
 		// transport does not transparently retry the request on a fresh connection
@@ -208,7 +217,7 @@ func (t *Target) handle(w http.ResponseWriter, r *http.Request) {
 		return
 	}
 	status := 200
-	if hit && sc.Kind == "status" {
+	if hit && (sc.Kind == "status" || sc.Kind == "rowmod") {
 		status = 418
 	}
 	switch r.Header.Get("X-Cap") {
